@@ -18,6 +18,7 @@ SUBS = [
     dict(name="events", quick=dict(cases=30, shards=3), thorough=dict(cases=400, shards=3)),
     dict(name="io", quick=dict(cases=30, shards=3), thorough=dict(cases=400, shards=3)),
     dict(name="netbuf", quick=dict(cases=30, shards=2), thorough=dict(cases=400, shards=2)),
+    dict(name="addr", quick=dict(cases=40, shards=1), thorough=dict(cases=400, shards=1)),
     dict(name="http", quick=dict(cases=12, shards=2), thorough=dict(cases=24, shards=2)),
 ]
 WRAPS = ["poll", "recv", "send", "connect", "accept", "getsockopt", "setsockopt", "socket", "close", "bind", "fcntl",
@@ -29,7 +30,7 @@ def build(B):
     need = {"events.c", "events_immediate.c", "events_network.c", "events_network_selectstats.c", "events_timer.c",
             "timerqueue.c", "ptrheap.c", "elasticarray.c", "elasticqueue.c", "seqptrmap.c", "warnp.c", "network_read.c",
             "network_write.c", "network_connect.c", "network_accept.c", "netbuf_read.c", "netbuf_write.c", "http.c", "sock.c",
-            "sock_util.c", "asprintf.c", "noeintr.c"}
+            "sock_util.c", "asprintf.c", "noeintr.c", "humansize.c"}
     objs = [lib[k] for k in sorted(need) if k in lib]
     shim = B.compile_c(os.path.join(HERE, "shim.c"))
     core = B.compile_cxx(os.path.join(HERE, "core.cpp"))
